@@ -15,8 +15,21 @@ impl Extra {
         }
     }
 
-    pub fn next_fd(&self) -> Option<RawFd> {
-        self.track.iter().find(|t| !t.ready).map(|t| t.arg.fd)
+    /// The next fd that is still waited for, preferring one whose interest
+    /// matches the event: an operation may wait for several fds, all
+    /// registered with the same key, so the interest is all that tells their
+    /// events apart. (The event may also belong to another operation on the
+    /// same fd, with the other interest; then any fd of this one will do.)
+    pub fn next_fd(&self, readable: bool, writable: bool) -> Option<RawFd> {
+        let mut waiting = self.track.iter().filter(|t| !t.ready);
+        waiting
+            .clone()
+            .find(|t| match t.arg.interest {
+                Interest::Readable => readable,
+                Interest::Writable => writable,
+            })
+            .or_else(|| waiting.next())
+            .map(|t| t.arg.fd)
     }
 
     pub fn reset(&mut self) {
